@@ -180,6 +180,7 @@ class Monitor:
         self.expected_branch: Optional[int] = None
         self.violation: Optional[Dict[str, Any]] = None
         self.checks = 0
+        self.case_keys: set = set()
         self.applications = 0
         self.cells_compared = 0
         self.branches_seen: Dict[str, int] = {}
@@ -239,6 +240,8 @@ class Monitor:
             var = self.vars_by_name[app.binding[op.name]]
             cells = app.used_cells(op)
             v[op.name] = self.state[var.name] & ((1 << (cells * var.bits_per_cell)) - 1)
+        # a DISTINCT case = (which application of the program, the operand values it is about to read)
+        self.case_keys.add(hash((id(app), tuple(sorted(v.items())))))
         result = app.spec.model(app.n, v, dict(app.consts), self.w)
         if result is None:
             return None  # the documentation leaves this case unspecified
